@@ -132,9 +132,9 @@ def run_identity(case):
     eh = np.max(np.abs(hv - want_h) / np.maximum(1.0, np.abs(want_h)))
     ei = np.max(np.abs(iv - want_i) / np.maximum(1e-300, np.maximum(np.abs(want_i), np.max(np.abs(want_i)) * 1e-3)))
     met = {"holo_identity_rel": eh, "intensity_identity_rel": ei}
-    if eh > 1e-12 * TOLX:
+    if not (eh <= 1e-12 * TOLX):
         return Outcome(failure("hologram_identity", "hologram differs from |alpha*E+e|^2 by %.3g (alpha=%r)" % (eh, alpha), **facts), True, labels)
-    if ei > 1e-12 * TOLX:
+    if not (ei <= 1e-12 * TOLX):
         return Outcome(failure("intensity_identity", "intensity differs from |E|^2 by %.3g" % ei, **facts), True, labels)
     if alpha == 0:
         dev = np.max(np.abs(hv - 1.0))
@@ -200,7 +200,7 @@ def run_abs(case):
     err = np.abs(hv - want).max()
     err_w = np.abs(hv - want_w).max()
     met = {"abs_err_over_tol": min(err_w / tol_round, err / (tol_round + 3 * trunc))}
-    if err_w > tol_round * TOLX and err > (tol_round + 3 * trunc) * TOLX:
+    if not (err_w <= tol_round * TOLX) and not (err <= (tol_round + 3 * trunc) * TOLX):
         return Outcome(failure("hologram_vs_independent_reference",
                                "hologram differs from the textbook-Mie hologram by %.3g (tolerance %.3g, |E|max %.3g, alpha %r)"
                                % (err, tol_round + 3 * trunc, escale, alpha), kind=sc["kind"]), True, labels)
